@@ -717,6 +717,11 @@ func (env *Env) call(x *ECall) SVal {
 			return b(app(">=", app("rid", app("iptr", v.T)), a0))
 		}
 		fail("fresh of %s", v.Sort)
+	case "rematch":
+		// rematch(re, s): (*regexp.Regexp).MatchString as the uninterpreted function the code model uses
+		re := env.value(env.eval(x.Args[0]))
+		str := env.value(env.eval(x.Args[1]))
+		return b(app(d.Fun("regexp_MatchString", []string{"Ref", "Str"}, "Bool"), re.T, str.T))
 	case "dstring":
 		// the exact decimal string of a number (decimal.Decimal.String)
 		v := env.value(env.eval(x.Args[0]))
